@@ -557,9 +557,78 @@ def helper_kernel_sig(src, name, what, mat, xname, yname, rows_b, cols_b):
     return dense_sig(s, name)
 
 
+def view_assign(body, what, lhs_ptr, rhs_same, rhs_scalar=None):
+    """body of an assignment operator of a scalar view -> `.copyEntry` / `.reseat` / `.viaRow`"""
+    b = re.sub(r"\bassert\s*\((?:[^()]|\([^()]*\))*\)\s*;", "", body)
+    b = squeeze(b)
+    if not b.endswith("return*this;"):
+        raise TranslateError("%s: does not return *this: %r" % (what, b))
+    b = b[:-len("return*this;")]
+    if lhs_ptr == "dataP_":
+        if rhs_scalar is not None:
+            if b == "*dataP_=%s;" % rhs_scalar:
+                return ".copyEntry"
+        else:
+            if b in ("*dataP_=*(%s.dataP_);" % rhs_same, "*dataP_=*%s.dataP_;" % rhs_same, "*dataP_=%s[0];" % rhs_same,
+                     "(*this)[0]=%s[0];" % rhs_same):
+                return ".copyEntry"
+            if b in ("dataP_=%s.dataP_;" % rhs_same, "this->dataP_=%s.dataP_;" % rhs_same):
+                return ".reseat"
+    else:
+        if rhs_scalar is not None:
+            if b == "data_=%s;" % rhs_scalar:
+                return ".viaRow"
+        elif b == "data_=%s.data_;" % rhs_same:
+            return ".viaRow"
+    raise TranslateError("%s: body outside the grammar: %r" % (what, b))
+
+
+def translate_views(repo, out):
+    """scalarvectorview.hh / scalarmatrixview.hh: what the assignment operators of the scalar views do with their handle;
+    transpose.hh: what transposedView() holds"""
+    rd = lambda f: strip_comments(open(os.path.join(repo, "dune/common", f)).read())
+    out.append("-- scalarvectorview.hh / scalarmatrixview.hh: assignment operators of the scalar views (same type, other scalar type, scalar)")
+    for cls_name, fname, ptr, pre in (("ScalarVectorView", "scalarvectorview.hh", "dataP_", "svv"),
+                                      ("ScalarMatrixView", "scalarmatrixview.hh", "data_", "smv")):
+        cls = class_body(rd(fname), r"template\s*<\s*class\s+K\s*>\s*class\s+%s\s*:" % cls_name, cls_name)
+        defs = find_defs(cls, r"operator\s*=")
+        same = [d for d in defs if re.fullmatch(r"const%s&(%s)" % (cls_name, ID), squeeze(d[0]))]
+        conv = [d for d in defs if re.fullmatch(r"const%s<(%s)>&(%s)" % (cls_name, ID, ID), squeeze(d[0]))]
+        scal = [d for d in defs if re.fullmatch(r"constT&(%s)" % ID, squeeze(d[0]))]
+        if len(defs) != 3 or len(same) != 1 or len(conv) != 1 or len(scal) != 1:
+            raise TranslateError("%s: assignment operators outside the grammar (%d definitions)" % (cls_name, len(defs)))
+        arg = lambda d: re.search(r"(%s)$" % ID, squeeze(d[0])).group(1)
+        out.append("def %s_assignSame : HAssign := %s" % (pre, view_assign(same[0][1], cls_name + "::operator=(same type)", ptr, arg(same[0]))))
+        out.append("def %s_assignConv : HAssign := %s" % (pre, view_assign(conv[0][1], cls_name + "::operator=(other scalar type)", ptr, arg(conv[0]))))
+        out.append("def %s_assignScalar : HAssign := %s" % (pre, view_assign(scal[0][1], cls_name + "::operator=(scalar)", ptr, None, arg(scal[0]))))
+    # transposedView(matrix) = transpose(std::cref(matrix)); transpose(reference_wrapper) wraps the reference_wrapper; the wrapper
+    # resolves it on every access
+    t = squeeze(rd("transpose.hh"))
+    m = re.search(r"autotransposedView\(constMatrix&(%s)\)\{(.*?)\}" % ID, t)
+    if not m:
+        raise TranslateError("transpose.hh: transposedView not found")
+    a, body = m.group(1), m.group(2)
+    via_ref = body in ("returntranspose(std::cref(%s));" % a, "returnImpl::TransposedMatrixWrapper(std::cref(%s));" % a)
+    by_copy = body in ("returntranspose(%s);" % a, "returnImpl::TransposedMatrixWrapper<Matrix>(%s);" % a,
+                       "returnImpl::TransposedMatrixWrapper<std::decay_t<Matrix>>(%s);" % a)
+    ref_ok = (re.search(r"autotranspose\(conststd::reference_wrapper<Matrix>&(%s)\)\{returnImpl::TransposedMatrixWrapper\(\1\);\}" % ID, t)
+              and "constWrappedMatrix&wrappedMatrix()const{returnresolveRef(matrix_);}" in t
+              and re.search(r"TransposedMatrixWrapper\(constM&matrix\):matrix_\(matrix\)\{\}", t)
+              and "Mmatrix_;" in t)
+    if via_ref and ref_ok:
+        hold = ".reference"
+    elif by_copy:
+        hold = ".copy"
+    else:
+        raise TranslateError("transpose.hh: transposedView / transpose(reference_wrapper) / wrappedMatrix outside the grammar: %r" % body)
+    out.append("-- transpose.hh: transposedView(A) refers to A (later changes of A are seen through the view)")
+    out.append("def tvHolds : ViewHold := %s" % hold)
+    out.append("")
+
+
 def translate(repo):
     rd = lambda f: strip_comments(open(os.path.join(repo, "dune/common", f)).read())
-    out = ["-- GENERATED by tools/translators/tr_c01.py from dune/common/{densematrix,diagonalmatrix,transpose,fmatrix}.hh"
+    out = ["-- GENERATED by tools/translators/tr_c01.py from dune/common/{densematrix,diagonalmatrix,transpose,fmatrix,densevector,dotproduct,scalarvectorview,scalarmatrixview}.hh"
            " -- do not edit",
            "import DuneVerif.Model.C01.Basic",
            "namespace DV.C01.Gen",
@@ -624,6 +693,7 @@ def translate(repo):
     out.append("def otherMulFm11 : KName := .%s" % ks[1])
     out.append("")
     translate_vectors(repo, out)
+    translate_views(repo, out)
     # product loop nests
     out.append("-- three-deep product loop nests (first / second input, loop extents, target entry, factors)")
     fraw = rd("fmatrix.hh")
